@@ -12,9 +12,11 @@ Three kinds of case (one `mkprof` call each, on directories planted by the harne
 Observed: the destination's schema names, per relation which files exist and the rows read through
 `tsdb.Database`.
 
-The TSQL filter is a PARAMETER of the Lean model: `naive_select` (nested loops over the relations a
-filter touches, natural join on shared key names by cast value) computes per source row the number
-of satisfying joined tuples; the same evaluator gives the direct oracle its `kept` flags.
+The row evaluation of the TSQL filter is a PARAMETER of the Lean model: `naive_select` (nested loops over
+the relations a filter touches, natural join on shared key names by cast value) computes per source row
+the number of satisfying joined tuples and reports which relations the filter's columns belong to; the
+join plan (pivot relations, reachability => all-rows fallback) is computed by the model itself from the
+source schema.  The same evaluator (with its own planner) gives the direct oracle its `kept` flags.
 """
 import gzip as gzip_mod
 import io
@@ -856,8 +858,10 @@ class C12(Check):
             "(with '*', Unicode blanks) and delimited (@, tab, |, multi-character) with header. A case is "
             "non-trivial if some relation it touches has rows / some line is given; distinct by JSON text.")
     assumptions = [
-        "TSQL evaluation is a parameter of the model: per source row the number of satisfying joined tuples, "
-        "computed by the harness's nested-loop evaluator (natural join on shared key names by cast value)",
+        "TSQL row evaluation is a parameter of the model: the harness's nested-loop evaluator (natural join on shared "
+        "key names by cast value) reports per table whether the filter's columns resolve, which relations they "
+        "belong to, and per source row the number of satisfying joined tuples; whether a join plan exists "
+        "(pivot relations, reachability over shared key names => the all-rows fallback) is computed by the model",
         "schemas are key-consistent (a column that is a key in one relation is a key wherever it occurs); relation "
         "and column names are TSQL identifiers without keyword prefixes and without '.'",
         "source files are written with well-formed escapes; integer key/condition columns hold int() spellings",
